@@ -16,7 +16,7 @@ import subprocess
 import sys
 import time as _realtime  # harness wall budget only; never visible to a simulated run
 import traceback
-from concurrent.futures import FIRST_COMPLETED, ProcessPoolExecutor, wait
+import multiprocessing.connection as mpc
 from typing import Any, Dict, List, Optional
 
 from . import kernel
@@ -214,11 +214,78 @@ def minimise(engine, rec: Dict[str, Any]) -> Dict[str, Any]:
     return out
 
 
+def _minimise_task(prop: str, rec: Dict[str, Any]) -> Dict[str, Any]:
+    return minimise(_get_engine(prop), rec)
+
+
+def _replay_task(prop: str, rec: Dict[str, Any]):
+    """(status, violation-json | None) of replaying one record (single or multi-run) in this process."""
+    engine = _get_engine(prop)
+    recs = rec["multi"] if "multi" in rec else [rec]
+    for k, one in enumerate(recs):
+        res, status = _guarded(lambda one=one: replay_record(engine, one))
+        if status != "ok":
+            return status, None, k
+        if res.violation is not None:
+            return "ok", res.violation.to_json(), k
+    return "ok", None, len(recs) - 1
+
+
+def _collect_chunk_records(prop: str, root: int, r0: int, r: int, tier: str):
+    """Re-run runs r0..r in this (fresh) process, in order, and return their full records."""
+    engine = _get_engine(prop)
+    out = []
+    for k in range(r0, r + 1):
+        res, status = _guarded(lambda k=k: run_one(engine, prop, root, k, tier))
+        if status != "ok":
+            return out
+        rec = _record_of(prop, root, k, res)
+        if res.violation is not None:
+            rec["violation"] = res.violation.to_json()
+        out.append(rec)
+    return out
+
+
+def _klass_of(vj) -> str:
+    return "/".join((vj["property"], vj["oracle"], vj["op"]))
+
+
+def cross_run_replay(prop: str, root: int, rec: Dict[str, Any], chunk: int, tier: str):
+    """The violation did not reproduce from its own run alone: it may depend on state the SUT kept from earlier
+    runs of the same chunk (module-level caches, mutated defaults). Build a replay of the chunk prefix."""
+    r = rec["run"]
+    r0 = (r // chunk) * chunk
+    recs = in_child(_collect_chunk_records, prop, root, r0, r, tier)
+    if not recs or "violation" not in recs[-1]:
+        return None
+    prop_of = recs[-1]["violation"]["property"]
+    # drop earlier runs that are not needed (each trial in a pristine child)
+    keep = list(recs)
+    i = 0
+    trials = 0
+    while i < len(keep) - 1 and trials < 60:
+        cand = keep[:i] + keep[i + 1 :]
+        trials += 1
+        status, vj, _ = in_child(_replay_task, prop, {"multi": cand})
+        if status == "ok" and vj is not None and vj["property"] == prop_of:
+            keep = cand
+        else:
+            i += 1
+    status, vj, _ = in_child(_replay_task, prop, {"multi": keep})
+    if status != "ok" or vj is None:
+        return None
+    out = {"format": kernel.FORMAT, "property": prop, "root_seed": root, "run": r, "cross_run_state": True, "multi": keep, "violation": vj}
+    return out
+
+
 def write_replay(prop: str, rec: Dict[str, Any]) -> str:
     d = os.path.join(VERIF, "replays", prop)
     os.makedirs(d, exist_ok=True)
     body = {k: rec[k] for k in rec if k != "digest"}
-    dg = kernel.digest_of({"init": rec["init"], "steps": rec["steps"]})[:16]
+    if "multi" in rec:
+        dg = kernel.digest_of([{"init": m["init"], "steps": m["steps"]} for m in rec["multi"]])[:16]
+    else:
+        dg = kernel.digest_of({"init": rec["init"], "steps": rec["steps"]})[:16]
     body["digest"] = dg
     path = os.path.join(d, f"{dg}.json")
     with open(path, "w") as f:
@@ -246,6 +313,46 @@ def fresh_replay(prop: str, path: str, hashseed: str = "0") -> Optional[str]:
 
 
 # --------------------------------------------------------------------------- batch
+def _child_main(conn, fn, args):
+    try:
+        conn.send(fn(*args))
+    except BaseException:  # noqa: BLE001 -- report, the parent decides
+        try:
+            conn.send({"__child_error__": traceback.format_exc()[-3000:]})
+        except Exception:  # noqa: BLE001
+            pass
+    finally:
+        conn.close()
+        os._exit(0)
+
+
+def _spawn(ctx, fn, *args):
+    parent, child = ctx.Pipe(duplex=False)
+    proc = ctx.Process(target=_child_main, args=(child, fn, args))
+    proc.start()
+    child.close()
+    return parent, proc
+
+
+def in_child(fn, *args, timeout=None):
+    """Run fn(*args) in a freshly forked child (pristine module state); returns its result."""
+    ctx = multiprocessing.get_context("fork")
+    conn, proc = _spawn(ctx, fn, *args)
+    try:
+        if not conn.poll(timeout if timeout is not None else RUN_CAP_S * 40):
+            proc.kill()
+            raise RuntimeError("child timed out")
+        out = conn.recv()
+    except EOFError:
+        raise RuntimeError(f"child died (exit code {proc.exitcode})")
+    finally:
+        conn.close()
+        proc.join()
+    if isinstance(out, dict) and "__child_error__" in out:
+        raise RuntimeError("child failed: " + out["__child_error__"])
+    return out
+
+
 def run_batch(prop: str, tier: str, root: int, n_runs: int, wall_cap: float, workers: int, chunk: int):
     t0 = _realtime.monotonic()
     import_sut()
@@ -266,34 +373,45 @@ def run_batch(prop: str, tier: str, root: int, n_runs: int, wall_cap: float, wor
     }
     tasks = [(prop, root, r0, min(n_runs, r0 + chunk), tier) for r0 in range(0, n_runs, chunk)]
     results = []
-    if workers <= 1:
-        for t in tasks:
+    # One freshly forked child per chunk: state that the SUT keeps in module globals cannot leak from one chunk
+    # into another, so what a run sees depends only on (seed, position inside its chunk) -- never on which worker
+    # happened to pick the chunk up.
+    it = iter(tasks)
+    live = {}  # connection -> (process, task)
+    exhausted = False
+    while True:
+        while not exhausted and len(live) < max(1, workers):
             if _realtime.monotonic() - t0 > wall_cap:
                 agg["truncated"] = True
+                exhausted = True
                 break
-            results.append(worker_chunk(t))
-    else:
-        with ProcessPoolExecutor(max_workers=workers, mp_context=ctx) as ex:
-            pending = set()
-            it = iter(tasks)
-            exhausted = False
-            while True:
-                while not exhausted and len(pending) < workers * 2:
-                    if _realtime.monotonic() - t0 > wall_cap:
-                        agg["truncated"] = True
-                        exhausted = True
-                        break
-                    try:
-                        pending.add(ex.submit(worker_chunk, next(it)))
-                    except StopIteration:
-                        exhausted = True
-                if not pending:
-                    break
-                done, pending = wait(pending, return_when=FIRST_COMPLETED, timeout=RUN_CAP_S * 8 * chunk)
-                if not done:
-                    raise RuntimeError("worker pool stalled")
-                for f in done:
-                    results.append(f.result())
+            try:
+                task = next(it)
+            except StopIteration:
+                exhausted = True
+                break
+            conn, proc = _spawn(ctx, worker_chunk, task)
+            live[conn] = (proc, task)
+        if not live:
+            break
+        ready = mpc.wait(list(live), timeout=RUN_CAP_S * 8 * chunk)
+        if not ready:
+            for proc, _ in live.values():
+                proc.kill()
+            raise RuntimeError("worker pool stalled")
+        for conn in ready:
+            proc, task = live.pop(conn)
+            try:
+                out = conn.recv()
+            except EOFError:
+                out = {"r0": task[2], "r1": task[3], "runs": 0, "stats": {}, "digests": [], "nontrivial": [], "states": set(), "violations": [], "timeouts": [], "errors": [{"run": task[2], "trace": f"worker for runs {task[2]}..{task[3]} died (exit code {proc.exitcode})"}], "samples": [], "sim_seconds": 0.0}
+            conn.close()
+            proc.join()
+            results.append(out)
+    for o in results:
+        if "__child_error__" in o:
+            agg["errors"].append({"run": -1, "trace": o["__child_error__"]})
+    results = [o for o in results if "__child_error__" not in o]
     results.sort(key=lambda o: o["r0"])
     for o in results:
         agg["runs"] += o["runs"]
@@ -354,8 +472,8 @@ def check(prop: str, tier: str) -> int:
         path = os.path.join(VERIF, e["replay"])
         with open(path) as f:
             rec = json.load(f)
-        res, status = _guarded(lambda: replay_record(engine, rec))
-        viol = res.violation if status == "ok" else None
+        status, vj, _ = in_child(_replay_task, prop, rec)
+        viol = Violation(vj["property"], vj["oracle"], vj["op"], vj["step"], vj["detail"]) if vj else None
         if e["status"] == "known":
             if (viol is not None and [viol.oracle, viol.op] == e["signature"]) or (
                 status == "timeout" and e["signature"][0] == "terminates"
@@ -389,11 +507,20 @@ def check(prop: str, tier: str) -> int:
         if k in seen_klass or len(seen_klass) >= 4:
             continue
         seen_klass.add(k)
-        mini = minimise(engine, rec)
+        mini = in_child(_minimise_task, prop, rec)
         path = write_replay(prop, mini)
         want = "/".join((mini["violation"]["property"], mini["violation"]["oracle"], mini["violation"]["op"]))
         got1 = fresh_replay(prop, path, "0")
         got2 = fresh_replay(prop, path, "1")
+        if got1 != want or got2 != want:
+            multi = cross_run_replay(prop, root, rec, chunk, tier)
+            if multi is not None:
+                os.remove(path)
+                path = write_replay(prop, multi)
+                want = _klass_of(multi["violation"])
+                got1 = fresh_replay(prop, path, "0")
+                got2 = fresh_replay(prop, path, "1")
+                mini = dict(multi, steps=[st for m in multi["multi"] for st in m["steps"]])
         if got1 == want and got2 == want:
             print(f"VIOLATION property={prop} replay={path}")
             print(f"  class={want} run={rec['run']} steps={len(mini['steps'])} (from {len(rec['steps'])})")
@@ -460,18 +587,19 @@ def replay_cli(prop: str, path: str) -> int:
     engine = _get_engine(prop)
     with open(path) as f:
         rec = json.load(f)
-    res, status = _guarded(lambda: replay_record(engine, rec))
+    status, vj, k = _replay_task(prop, rec)
     if status == "timeout":
         print(f"REPLAY-VIOLATION class={prop}/terminates/run")
         print(f"VIOLATION property={prop} replay={path}")
         return 1
-    if res.violation is not None:
-        v = res.violation
-        print(f"REPLAY-VIOLATION class={v.prop}/{v.oracle}/{v.op}")
+    if vj is not None:
+        print(f"REPLAY-VIOLATION class={vj['property']}/{vj['oracle']}/{vj['op']}")
         print(f"VIOLATION property={prop} replay={path}")
-        print(f"  step={v.step} {v.detail[:1500]}")
+        where = f"run {k + 1} of {len(rec['multi'])} (state carried across runs), " if "multi" in rec else ""
+        print(f"  {where}step={vj['step']} {vj['detail'][:1500]}")
         return 1
-    print(f"REPLAY-OK property={prop} steps={len(rec['steps'])} digest={res.digest()[:16]}")
+    n = sum(len(m["steps"]) for m in rec["multi"]) if "multi" in rec else len(rec["steps"])
+    print(f"REPLAY-OK property={prop} steps={n}")
     return 0
 
 
